@@ -1,11 +1,62 @@
-"""C10 — see DESIGN.md section 4. Proof obligations: Properties/C10.v. Tie: K5 on every case, under this property's observation."""
-from . import core
+"""C10 — see DESIGN.md section 4. Proof obligations: Properties/C10.v. Tie: K5 on every case, under this property's observation;
+on the range path (format_source_range is formatting too) the literal observation of the spliced text."""
+from . import core, krange, shrink, synth
 from .c01 import sig_certificate
+from .common import SplitMix, hexs, unhex
 
 PROP_FILE = 'Properties/C10.v'
 THEOREMS = ['C10_literal_leaf_exact', 'C10_atoms_rendered_verbatim', 'C10_rendered_string_is_atoms', 'C10_refuted',
             'C10_clean_text_survives_postprocessing', 'C10_emitted_text_reaches_output', 'C10_signature_conserved_in_scope']
 
+# literals that span lines, at an indentation, in the constructs range formatting selects
+RANGE_SOURCES = [
+    '#{\n  let s = "first\nsecond"\n  let t = `x\ny`\n}\n',
+    '- item\n  #f("a\n  b", `r\n   s`)\n',
+    '#let g = (\n  a: "one\n\ntwo",\n  b: ```py\n  x = 1\n    y\n  ```,\n)\n',
+    '  #f(x)[y #g("k\nl")]\n',
+    '/ T: #h("m\n n", 1)\n    #i(`o\n p`)\n',
+    '#{\n  {\n    f("deep\n line")\n  }\n}\n',
+    '$ a + #f("q\nr") $\n',
+    '#show: it => {\n  let x = "1\n2"\n  it\n}\n',
+]
+
+
+def range_literals(ck, recs, tier, seed):
+    """format_source_range on sources with multi-line literals at an indentation (plus grammar-directed ones): the literals of
+    the spliced text are exactly those of the source."""
+    rng = SplitMix(seed * 131 + 10)
+    srcs = list(RANGE_SOURCES) + synth.generate(rng, 60 if tier == "quick" else 1500)
+    cs = []
+    for i, s in enumerate(srcs):
+        for (a, b) in krange.gen_ranges(rng, s, 4 if tier == "quick" else 8):
+            cs.append(([80, 20, 0][i % 3], [2, 4, 1][i % 3], a, b, s))
+    try:
+        res = krange.run_cases(cs, timeout=7200)
+    except Exception as e:
+        ck.oblige("evaluation of the range cases (literals) completes", False, str(e)[-800:])
+        return
+    judged = [d for d in res if d.get("c10r") is not None]
+    bad = [d for d in judged if d["c10r"] == "0" and not shrink.in_known_class(d, "c10")]
+    ck.extra["range_path"] = {"range_cases": len(res), "spliced_and_judged": len(judged), "literal_mismatches": len(bad),
+                              "k6_disagreements": len([d for d in res if not d["agree"]])}
+    ck.oblige("range path: the literals of the spliced text equal the source's in %d range cases" % len(judged), not bad,
+              ("first: %r" % (bad[0]["case"],))[:500] if bad else "")
+    seen = set()
+    for d in bad:
+        c = d["case"]
+        if len([v for v in ck.violations]) >= 3 or (c[4], c[2], c[3]) in seen:
+            continue
+        seen.add((c[4], c[2], c[3]))
+        ck.violation("counterexample", {
+            "what": "range formatting changed the content of a literal",
+            "input": {"width": c[0], "tab": c[1], "start": c[2], "end": c[3], "source": c[4]},
+            "returned_range": [d.get("rs"), d.get("re")], "returned_text": unhex(d["out"]) if d.get("out") else None,
+            "detail": unhex(d["c10rd"]) if d.get("c10rd") else None,
+            "reproduce": "echo '%d %d %d %d %s' | build/target/debug/tyv range" % (c[0], c[1], c[2], c[3], hexs(c[4]))})
+
 
 def run(tier, seed, replay=None):
-    return core.run_property('C10', tier, seed, replay, 'c10w', PROP_FILE, THEOREMS, 'the content of a literal (string, raw text, number, identifier, label, ...) changed', ['known finding F4 (blanks before a line feed inside a string / raw block are stripped) is a theorem about the model (C10_refuted) and a listed class; literal comparison is exact for every other input'], post=sig_certificate)
+    def post(ck, recs):
+        sig_certificate(ck, recs)
+        range_literals(ck, recs, tier, seed)
+    return core.run_property('C10', tier, seed, replay, 'c10w', PROP_FILE, THEOREMS, 'the content of a literal (string, raw text, number, identifier, label, ...) changed', ['known finding F4 (blanks before a line feed inside a string / raw block are stripped) is a theorem about the model (C10_refuted) and a listed class; literal comparison is exact for every other input', 'range path: judged by the literal oracle on the spliced text (K6, the model/implementation comparison of range formatting, belongs to C13)'], post=post)
